@@ -9,6 +9,7 @@
 //   sess sendcs <slot> <custom_seq> <noinc> <msg tokens ...>
 //   sess batch <slot> <msg tokens ; msg tokens ; ...>    Session::send_batch
 //   sess tick <slot>                         Session::heartbeat_service()
+//   sess failnext <slot> <n>                 the next n writes to the socket fail (EPIPE) without transmitting anything
 //   sess get <slot> <seq>                    persister get
 //   sess obs <slot> | sess stop <slot> | sess del <slot> | sess wipe
 //   sess conc <slot> <nthreads> <script;script;...>  concurrent senders (C25), script = comma list of  s<id> | b<id>+<id>+... | y (yield)
@@ -40,6 +41,7 @@ struct FakeSock : Poco::Net::StreamSocketImpl
 	std::vector<std::string> out;   // one entry per sendBytes call
 	bool closed = false, blocking = false;
 	int wmax = 0;                   // > 0: sendBytes accepts at most that many bytes per call (short writes)
+	int fail_next = 0;              // > 0: that many following sendBytes calls fail with EPIPE
 	std::atomic<unsigned long> rcalls{0}, wcalls{0};
 	std::atomic<bool> waiting{false};   // a reader is blocked on an empty inbound queue: everything fed so far has been consumed and processed
 
@@ -48,6 +50,7 @@ struct FakeSock : Poco::Net::StreamSocketImpl
 		std::lock_guard<std::mutex> g(m);
 		++wcalls;
 		if (closed) { errno = EPIPE; return -1; }
+		if (fail_next > 0) { --fail_next; errno = EPIPE; return -1; }      // injected transmit failure: nothing of this write reaches the wire
 		const int n(wmax > 0 && length > wmax ? wmax : length);
 		out.emplace_back(static_cast<const char *>(buffer), n);
 		return n;
@@ -399,6 +402,7 @@ static Reg r_sess("sess", [](std::istringstream& is) {
 		return observe(s, std::to_string(r));
 	}
 	if (op == "tick") { const bool r(s.ses->tick()); return observe(s, r ? "true" : "false"); }
+	if (op == "failnext") { int n(0); is >> n; { std::lock_guard<std::mutex> g(s.fs->m); s.fs->fail_next = n; } return observe(s, "true"); }
 	if (op == "get")
 	{
 		unsigned seq(0); is >> seq;
